@@ -344,7 +344,7 @@ RICH_SEGS = [(0.0, 1.0), (0.0, 2.0), (1.0, 2.0), (-3.0, -1.0), (0.5, 7.25), (2.0
              # values a float32 cannot tell apart, and integer boundaries beyond 2**53 (nanosecond time stamps): exact types matter
              (1000.0, 16777217.0), (1000.0, 16777216.0), (16777216.0, 16777218.0), (16777217.0, 16777218.0),
              (1700000000000000300, 1700000000000001100), (1700000000000000301, 1700000000000001100)]
-RICH_LABELS = [None, "x", "y"]
+RICH_LABELS = [None, "x", "y", ""]      # the empty label is a label: it sorts after the unlabelled unit, before any other
 
 
 def random_history(rng, length):
